@@ -54,9 +54,9 @@ C12 == INSTANCE Expr WITH MaxDepth <- 0, case <- prog, verdict <- phase
 (* data: variable -> sequence of values it takes; a valuation maps each variable to an index *)
 Undef == "@undef"                 \* the harness leaves such a variable out of the render arguments
 O1 == [b |-> [c |-> 1, d |-> "k1", e |-> <<4, 5>>], k1 |-> 2, arr |-> <<10, 20, 30>>]
-      @@ ("b c" :> 3) @@ ("and" :> 4) @@ ("it's" :> 5) @@ ("q\"q" :> 6) @@ ("a\\b" :> 7) @@ ("empty" :> 8)
+      @@ ("b c" :> 3) @@ ("and" :> 4) @@ ("it's" :> 5) @@ ("q\"q" :> 6) @@ ("a\\b" :> 7) @@ ("empty" :> 8) @@ ("1" :> 9) @@ ("2024" :> [b |-> 10]) @@ ("1-2" :> 11) @@ ("7up" :> 12)
 O2 == [b |-> [c |-> 21, d |-> "arr", e |-> <<24>>], k1 |-> 22, arr |-> <<40, 2>>]
-      @@ ("b c" :> 23) @@ ("and" :> 24) @@ ("it's" :> 25) @@ ("q\"q" :> 26) @@ ("a\\b" :> 27) @@ ("empty" :> 28)
+      @@ ("b c" :> 23) @@ ("and" :> 24) @@ ("it's" :> 25) @@ ("q\"q" :> 26) @@ ("a\\b" :> 27) @@ ("empty" :> 28) @@ ("1" :> 29) @@ ("2024" :> [b |-> 30]) @@ ("1-2" :> 31) @@ ("7up" :> 32)
 Dom == [a |-> <<TRUE, FALSE>>, b |-> <<TRUE, FALSE>>, c |-> <<TRUE, FALSE>>,
         n |-> <<0, 2, 3>>, k |-> <<0, 1>>,
         xs |-> << <<>>, <<1, 2, 3, 1>> >>,
@@ -94,6 +94,8 @@ Paths == { O("path-dotted", "o.b.c", {"o"}), O("path-sq", "o['b c']", {"o"}), O(
            O("path-nested", "o[o.b.d]", {"o"}), O("path-index", "o.arr[0]", {"o"}), O("path-negindex", "o.arr[-1]", {"o"}),
            O("path-first", "o.arr.first", {"o"}), O("path-size", "o.arr.size", {"o"}), O("path-mixed", "o.b['e'][1]", {"o"}),
            O("path-qfirst", "o['b'].c", {"o"}), O("path-keyword", "o['and']", {"o"}), O("path-keyword-empty", "o[\"empty\"]", {"o"}),
+           O("path-seg-digits", "o['1']", {"o"}), O("path-seg-digits-dot", "o['2024'].b", {"o"}), O("path-seg-digit-dash", "o['1-2']", {"o"}),
+           O("path-seg-digit-word", "o['7up']", {"o"}),
            O("path-seg-sq", "o[\"it's\"]", {"o"}), O("path-seg-dq", "o['q\"q']", {"o"}), O("path-seg-backslash", "o['a\\b']", {"o"}),
            O("path-nested-root", "o.arr[['a b'][0]]", {"o", "a b"}), O("path-nested-bracket", "o[[p]]", {"o", "p", "x", "y"}) }
 (* bracketed roots: a variable whose NAME is computed ([p]) or quoted (['a b']) *)
